@@ -39,8 +39,8 @@ theorem ackWalk_pns (f : Nat → Bool) (l : List Pkt) (s : St) (a : AckAcc) :
     simp only at ih ⊢
     split <;> simp [ih]
 
-theorem lossWalk_pns (T ld L la : Nat) (l : List Pkt) : ∀ (k : Nat) (lt : Option Nat),
-    (lossWalk T ld L la l k lt).1.map (·.pn) = l.map (·.pn) := by
+theorem lossWalk_pns (T ld L : Nat) (l : List Pkt) : ∀ (k : Nat) (lt : Option Nat),
+    (lossWalk T ld L l k lt).1.map (·.pn) = l.map (·.pn) := by
   induction l with
   | nil => intro k lt; rfl
   | cons p ps ih =>
@@ -49,14 +49,14 @@ theorem lossWalk_pns (T ld L la : Nat) (l : List Pkt) : ∀ (k : Nat) (lt : Opti
     split
     · split
       · have ih' := ih (k + 1) lt
-        generalize (lossWalk T ld L la ps (k + 1) lt) = w at *
+        generalize (lossWalk T ld L ps (k + 1) lt) = w at *
         obtain ⟨ps', lost, lt'⟩ := w
         simp only at ih' ⊢
         simp [ih']
       · simp only
         simp [ih]
     · have ih' := ih (k + 1) lt
-      generalize (lossWalk T ld L la ps (k + 1) lt) = w at *
+      generalize (lossWalk T ld L ps (k + 1) lt) = w at *
       obtain ⟨ps', lost, lt'⟩ := w
       simp only at ih' ⊢
       simp [ih']
@@ -98,22 +98,18 @@ theorem armProbe_sorted {s s' : St} {i : Inp} (h : armProbe s i = .ok s') (hs : 
 theorem detectLost_sorted {s s' : St} {e ld : Nat} {lost : List Nat} (h : detectLost s e ld = .ok (s', lost))
     (hs : SortedAll s) : SortedAll s' := by
   unfold detectLost at h
+  simp only at h
+  have k : SortedAll (setSp s e { getSp s e with
+      sent := (lossWalk (s.now - ld - (getSp s e).mad) ld (bsearch (getSp s e).sent ((getSp s e).la.getD 0)) (getSp s e).sent 0 none).1,
+      lt := (lossWalk (s.now - ld - (getSp s e).mad) ld (bsearch (getSp s e).sent ((getSp s e).la.getD 0)) (getSp s e).sent 0 none).2.2 }) :=
+    sortedAll_setSp _ _ hs (sorted_of_map_eq (lossWalk_pns _ _ _ _ _ _) (hs.get e))
   split at h
-  · cases h; exact setSp_same_sorted _ _ rfl hs
-  · rename_i la _
-    unfold detectLostLa at h
-    simp only at h
-    have k : SortedAll (setSp s e { getSp s e with
-        sent := (lossWalk (s.now - ld - (getSp s e).mad) ld (bsearch (getSp s e).sent la) la (getSp s e).sent 0 none).1,
-        lt := (lossWalk (s.now - ld - (getSp s e).mad) ld (bsearch (getSp s e).sent la) la (getSp s e).sent 0 none).2.2 }) :=
-      sortedAll_setSp _ _ hs (sorted_of_map_eq (lossWalk_pns _ _ _ _ _ _ _) (hs.get e))
-    split at h
-    · cases h; exact k
-    · split at h
-      · cases h
-      · rename_i s2 h2
-        cases h
-        exact sortedAll_same (onPacketsLost_frame h2).2 k
+  · cases h; exact k
+  · split at h
+    · cases h
+    · rename_i s2 h2
+      cases h
+      exact sortedAll_same (onPacketsLost_frame h2).2 k
 
 theorem onTimeout_sorted {s s' : St} {i : Inp} {l : List (Nat × List Nat)} (h : onTimeout s i = .ok (s', l))
     (hs : SortedAll s) : SortedAll s' := by
@@ -146,37 +142,35 @@ theorem discardEpoch_sorted {s s' : St} {e a b : Nat} (h : discardEpoch s e a b 
     · exact this
     · split <;> exact this
 
-theorem sentInflight_sorted {s : St} (e : Nat) (elic : Bool) (size : Nat) (hs : SortedAll s) :
-    SortedAll (sentInflight s e elic size) ∧ (getSp (sentInflight s e elic size) e).sent = (getSp s e).sent := by
-  unfold sentInflight
-  refine ⟨sortedAll_setSp _ _ (s := { s with bytes := s.bytes + size }) hs ?_, ?_⟩
-  · have := hs.get e
-    split <;> exact this
-  · simp only [getSp_setSp]; split <;> rfl
-
 theorem onPktSent_sorted {s s' : St} {i : Inp} {e pn : Nat} {elic infl : Bool} {size : Nat}
     (h : onPktSent s i e pn elic infl size = .ok s') (hs : SortedAll s)
     (hpn : ∀ q ∈ (getSp s e).sent, q.pn < pn) : SortedAll s' := by
   unfold onPktSent at h
   simp only [ebind_ok] at h
-  obtain ⟨s3, h1, h2⟩ := h
-  have push : ∀ (x : St), SortedAll x → (getSp x e).sent = (getSp s e).sent →
-      SortedAll (pushPkt x e { pn := pn, ts := s.now, elic := elic, cc := infl, size := size, st := PSt.I }) := by
-    intro x hx hxe
+  obtain ⟨s1, h1, h2⟩ := h
+  have k1 : SortedAll s1 ∧ (getSp s1 e).sent = (getSp s e).sent := by
+    split at h1
+    · rw [setTimer_eq h1]
+      have hsent : (getSp (sentInflight s i.ld0 e elic size) e).sent = (getSp s e).sent := by
+        unfold sentInflight; simp only [getSp_setSp]; split <;> split <;> rfl
+      refine ⟨?_, ?_⟩
+      · show SortedAll (sentInflight s i.ld0 e elic size)
+        unfold sentInflight
+        refine sortedAll_setSp _ _ (s := { s with bytes := s.bytes + size }) hs ?_
+        have := hs.get e
+        split <;> split <;> exact this
+      · have : getSp { sentInflight s i.ld0 e elic size with timer := s1.timer } e = getSp (sentInflight s i.ld0 e elic size) e := by
+          unfold getSp; split <;> rfl
+        rw [this]; exact hsent
+    · cases h1; exact ⟨hs, rfl⟩
+  have k2 : SortedAll (pushPkt s1 e { pn := pn, ts := s.now, elic := elic, cc := infl, size := size, st := PSt.I }) := by
     unfold pushPkt
-    refine sortedAll_setSp _ _ hx ?_
+    refine sortedAll_setSp _ _ k1.1 ?_
     simp only
-    exact sorted_append _ _ (hx.get e) (by rw [hxe]; exact hpn)
-  have k3 : SortedAll s3 := by
-    cases infl
-    · simp only [Bool.false_eq_true, if_false] at h1
-      cases h1; exact push s hs rfl
-    · simp only [if_true] at h1
-      obtain ⟨c1, c2⟩ := sentInflight_sorted e elic size hs
-      exact setTimer_sorted h1 (push _ c1 c2)
+    exact sorted_append _ _ (k1.1.get e) (by rw [k1.2]; exact hpn)
   split at h2
-  · exact discardEpoch_sorted h2 k3
-  · cases h2; exact k3
+  · exact discardEpoch_sorted h2 k2
+  · cases h2; exact k2
 
 theorem spaceOnAck_sorted {s : St} (e : Nat) (a : Ack) (hs : SortedAll s) : SortedAll (spaceOnAck s e a).1 := by
   unfold spaceOnAck
